@@ -7,7 +7,7 @@ import json, os, re, subprocess, sys
 VERIF = os.path.dirname(os.path.dirname(os.path.abspath(__file__)))
 WT = '/tmp/wt-revert'
 # earlier fix -> later fix touching the same lines
-STACKED = {'919fe8e': '2bfd7f7', 'e014a8e': '975810f'}
+STACKED = {'919fe8e': '2bfd7f7', 'e014a8e': '975810f', 'fc3c546': '00844b8'}
 
 
 def sh(cmd, cwd=None):
@@ -48,7 +48,11 @@ def main():
             sh('git reset -q --hard HEAD; git clean -fdq', cwd=WT)
     finally:
         sh('git -C /repo worktree remove --force %s' % WT)
-    json.dump(results, open(os.path.join(VERIF, 'reverts.json'), 'w'), indent=1)
+    path = os.path.join(VERIF, 'reverts.json')
+    old = {r['commit']: r for r in (json.load(open(path)) if os.path.exists(path) else [])}
+    for r in results:
+        old[r['commit']] = r
+    json.dump(list(old.values()), open(path, 'w'), indent=1)
 
 
 if __name__ == '__main__':
